@@ -874,7 +874,9 @@ def sweep_long_job(args):
 #   quick   : (a) n = 2^29 in ONE call for SHA-256, SHA-512 and the rotating digest (MD5 for odd VERIF_SEED, SHA-1 for even);
 #             result form / constructor / argument style rotate with seed + algorithm; when (seed // 2) is odd the
 #             rotating digest runs (b) n = 2^29+129+seed%3 as 1 byte + rest instead; plain / SSE2 / dispatching SipHash
-#             compared with each other on the 2^29-byte message.  About 3 passes over 512 MiB + 3 SipHash passes.
+#             compared with each other on the 2^29-byte message; (c) the other digest of the MD5 / SHA-1 pair gets
+#             2^30 + 4096 + seed%3 bytes in ONE string_view call (process(view) / view constructor).  About 3 passes over
+#             512 MiB + 3 SipHash passes + 1 pass over 1 GiB (RSS about 1.2 GB).
 #   thorough: n in 2^29-1, 2^29, 2^29+1, 2^30+64, all four digests: one call through an object, small + rest,
 #             rest + small, four quarters; one call through a helper and three uneven pieces for two digests per size
 #             (rotating); SipHash agreement; then 2^32 - 1 zero bytes: one call and 1 + rest for every digest, helper
@@ -900,6 +902,14 @@ def huge_cases(seed, tier):
         if (seed // 2) % 2 == 1:
             n2 = n + 129 + seed % 3
             yield digest_case(rot, (k + 1) % 4, (k + 1) % 3, [(1, k % 2), (n2 - 1, (k + 1) % 2)], b"", huge=(hs, n2, 0))
+        # (c) one string_view call carrying MORE than 2^30 bytes (the overloads taking a view narrow / re-split the size):
+        # the other digest of the MD5 / SHA-1 pair, process(tlx::string_view) on odd seeds, the view constructor on even ones
+        n3 = (1 << 30) + 4096 + seed % 3
+        hs3 = (seed * 7919 + n3) & M64
+        if seed % 2:
+            yield digest_case(1 - rot, k % 4, 0, [(n3, 1)], b"", huge=(hs3, n3, 0))
+        else:
+            yield digest_case(1 - rot, k % 4, 2, [(n3, 1)], b"", huge=(hs3, n3, 0))
         return
     allp = ALGOS[:]
     for n in HUGE_THOROUGH:
